@@ -448,6 +448,20 @@ class X86_64Arch(Architecture):
                         arg, RmMemDisp(rbp, stack_offset + 16)
                     )
                     stack_offset += arg_loc.size
+                elif isinstance(arg, registers.Register8):
+                    yield bits64.MovRegRm(
+                        rax, RmMemDisp(rbp, stack_offset + 16)
+                    )
+                    yield RegisterUseDef(uses=(rax,), defs=(al,))
+                    yield self.move(arg, al)
+                    stack_offset += arg_loc.size
+                elif isinstance(arg, registers.Register16):
+                    yield bits64.MovRegRm(
+                        rax, RmMemDisp(rbp, stack_offset + 16)
+                    )
+                    yield RegisterUseDef(uses=(rax,), defs=(registers.ax,))
+                    yield self.move(arg, registers.ax)
+                    stack_offset += arg_loc.size
                 elif isinstance(arg, StackLocation):
                     # Store memcpy action for later:
                     # cps.append((arg.offset, stack_offset, arg.size))
@@ -519,6 +533,16 @@ class X86_64Arch(Architecture):
                 yield self.move(registers.eax, push_reg)
                 yield RegisterUseDef(
                     uses=(registers.eax,), defs=(registers.rax,)
+                )
+                yield Push(rax)
+            elif isinstance(push_reg, registers.Register8):
+                yield self.move(al, push_reg)
+                yield MovsxReg64Rm8(rax, RmReg8(al))
+                yield Push(rax)
+            elif isinstance(push_reg, registers.Register16):
+                yield self.move(registers.ax, push_reg)
+                yield instructions.MovsxReg64Rm16(
+                    rax, RmReg16(registers.ax)
                 )
                 yield Push(rax)
             elif isinstance(push_reg, StackLocation):
